@@ -6,7 +6,7 @@ from core import cq, fr, fl, Raw
 import leafgen as lg
 
 ID = 'C15'
-GEN = ['kernels', 'classes', 'thermal']
+GEN = ['kernels', 'classes', 'thermal', 'functions']
 PROPS = 'Props/C15.v'
 MODEL_VO = ['Model/Dev.v']
 CASE_TYPE = 'leafdev Q * list Q * list Q * Q * list Q'
